@@ -25,6 +25,13 @@ def pivot():
     S.append(EnumSpec("DisMid", [U("A"), U("H", disabled=True), U("B"), U("C")], note="disabled in the middle"))
     S.append(EnumSpec("DisFirstLast", [U("H1", disabled=True), U("A"), U("B"), U("H2", disabled=True)], note="disabled first and last"))
     S.append(EnumSpec("DisAdj", [U("A"), U("H1", disabled=True), U("H2", disabled=True), U("B")], note="adjacent disabled"))
+    S.append(EnumSpec("DisAttr", [
+        U("A"), U("H1", disabled=True, message="m", serialize=["h1"]), U("B", serialize=["bee"], message="mb"),
+        U("H2", disabled=True, message="m2", flags_last=True), U("C"), U("H3", disabled=True, attr_style="trailing"),
+        U("H4", disabled=True, serialize=["x", "y"], attr_style="split"), U("D"),
+    ], note="`disabled` combined with other items in one attribute (before / after them), trailing comma, split attributes"))
+    S.append(EnumSpec("SameName", [U("Kb"), U("KB"), U("Warn"), U("Warning", to_string="warn")], serialize_all="lowercase",
+                      note="two variants whose canonical names coincide (VariantNames only describes, it must still list every declared variant)"))
     S.append(EnumSpec("Eight", [U("V%d" % i) for i in range(8)], serialize_all="kebab-case", note="8 variants"))
     return S
 
